@@ -43,6 +43,9 @@ def _serialize_ds9(regions, precision=8):
     for region in region_data:
         region_meta = deepcopy(region['meta'])
         region_meta.pop('tag', None)  # "tag" cannot be in global metadata
+        # "include" is a per-region property (a global value is
+        # overridden by the missing/leading +/- sign of each region)
+        region_meta.pop('include', None)
         all_meta.append(region_meta)
 
     global_meta = dict(set.intersection(*[set(meta_dict.items())
